@@ -131,6 +131,29 @@ def campaign(c):
         if impl['outcome'][0] != 'failure' or impl['outcome'][1] not in ('Name', 'MultipleAssign'):
             c.violation('sem:self-reference', 'a name was usable inside or before its own let: %s -> %s' % (sn.replace('\n', ' '), impl['outcome'],), dict(src=src.decode()))
         c.case(('self', sn), dict(kind='selfref', stmt=sn))
+    # (f0) evaluation stops at the FIRST faulty operand in source order: what stands to the right of it is never looked at, so a
+    #      second fault there changes nothing (class and position of the diagnostic are those of the run with the left fault alone)
+    FAULTS = ['undef_a', 'undef_b.member', 'nosuchmod::x', 'text::concat(true)', 'text::nosuch("a")', 'b.read("x")', 'text::concat(undef_c)', 'b.nosuch']
+    SLOTS = [('L / R', '1.2.3.4', '80'), ('let z = L / R', '1.2.3.4', '80'), ('text::concat(L, R)', '"a"', '"b"'), ('text::concat(L, "m", R)', '"a"', '"b"'),
+             ('text::concat(text::concat(L), R)', '"a"', '"b"'), ('ipv4::udp::unicast(L / 5, 1.2.3.4 / R, "x")', '1.2.3.4', '80'),
+             ('ipv4::udp::unicast(1.2.3.4 / L, R / 9, "x")', '80', '1.2.3.4'), ('ipv4::udp::unicast(dst: 1.2.3.4 / L, src: R / 9, "x")', '80', '1.2.3.4'),
+             ('let z = b.read(L, R)', '1', '2'), ('eth::frame("|000000000001|", "|000000000002|", L / R)', '1.2.3.4', '80')]
+    pre = 'import ipv4;\nimport text;\nimport io;\nimport eth;\nlet b = io::bufio("abcdef");\n'
+    for si, (tmpl, okl, okr) in enumerate(SLOTS):
+        for fl in FAULTS:
+            def fill(l, r_): return (pre + tmpl.replace('L', '\x00').replace('R', r_).replace('\x00', l) + ';\n').encode()
+            alone = fill(fl, okr)
+            ia, ma = progdiff.run_both(c, alone)
+            progdiff.compare(c, alone, ia, ma, 'fault-order')
+            for fr in FAULTS:
+                if fr == fl and c.quick: continue
+                both = fill(fl, fr)
+                ib, mb = progdiff.run_both(c, both)
+                progdiff.compare(c, both, ib, mb, 'fault-order')
+                if ia['outcome'][0] == 'failure' and ib['outcome'][:3] != ia['outcome'][:3]:
+                    c.violation('sem:fault-order', 'a fault to the RIGHT of the first faulty operand changes the diagnostic: %s alone -> %s, with %s behind it -> %s'
+                                % (fl, ia['outcome'][:3], fr, ib['outcome'][:3]), dict(src=both.decode(), alone=alone.decode()))
+            c.case(('fault-order', si, fl), dict(kind='fault-order', template=tmpl, left=fl, outcome=str(ia['outcome'][:3])) if si % 3 == 0 else None)
     # (f) left-to-right evaluation with a stateful buffer
     for i in range(20 if c.quick else 300):
         r = c.rng.fork('ord%d' % i)
